@@ -1028,7 +1028,14 @@ pub fn absent_option_size() -> usize {
 }
 
 // Counter used for temporary file names.
+#[cfg(not(simple_sds_verif_loom))]
 static TEMP_FILE_COUNTER: AtomicUsize = AtomicUsize::new(0);
+
+// Verification hook: the same counter as a loom atomic, so that a model checker sees the accesses.
+#[cfg(simple_sds_verif_loom)]
+loom::lazy_static! {
+    static ref TEMP_FILE_COUNTER: loom::sync::atomic::AtomicUsize = loom::sync::atomic::AtomicUsize::new(0);
+}
 
 /// Returns a name for a temporary file using the provided name part.
 ///
